@@ -45,6 +45,27 @@ def anchors():
     return res
 
 
+_LINEMAP = {}
+
+
+def to_head(rel, line):
+    """anchors name lines of the PINNED commit; map a line to the working tree (repairs shifted the files)"""
+    import difflib
+    if rel not in _LINEMAP:
+        base = subprocess.run(["git", "-C", REPO, "rev-list", "--max-parents=0", "HEAD"], capture_output=True, text=True).stdout.split()[0]
+        old = subprocess.run(["git", "-C", REPO, "show", f"{base}:{rel}"], capture_output=True, text=True).stdout.splitlines()
+        try:
+            new = open(os.path.join(REPO, rel)).read().splitlines()
+        except OSError:
+            new = old
+        m = {}
+        for tag, i1, i2, j1, j2 in difflib.SequenceMatcher(None, old, new, autojunk=False).get_opcodes():
+            for k in range(i2 - i1):
+                m[i1 + k + 1] = j1 + min(k, max(j2 - j1 - 1, 0)) + 1
+        _LINEMAP[rel] = m
+    return _LINEMAP[rel].get(line, line)
+
+
 def run_one(pid, tier, scratch):
     d = os.path.join(scratch, pid)
     os.makedirs(d, exist_ok=True)
@@ -102,6 +123,7 @@ def main():
                 union_exec.setdefault(rel, set()).update(ex_l)
                 rec["files"][rel] = {"executed": len(ex_l), "statements": len(ex_l | mi_l)}
             for rel, a, b, name in anc.get(pid, []):
+                a, b = to_head(rel, a), to_head(rel, b)
                 d = cov.get(os.path.join(REPO, rel))
                 if d is None:
                     continue
